@@ -65,6 +65,17 @@ Print Assumptions C12_module_alias_distinct_iff.
 (* ... and the property's claim for every pair of packages is false of the code: google.example.kw.v1.alpha and
    google.example.kw.v1.apple both yield geka_common (known finding C12-alias-same-initials; replayed on the generator
    by the harness, kind modcoll with sub-packages alpha/apple) *)
+(* a types module named like a module the emitted service code imports (re, json, os, gapic_v1, ...) is imported under its alias,
+   and an alias never equals the bare module name *)
+Theorem C12_imported_module_aliased : forall p v m c,
+  imported_name m = true -> module_alias p v m c = pkg_initials p v ++ "_" ++ m.
+Proof. exact imported_module_aliased. Qed.
+Print Assumptions C12_imported_module_aliased.
+
+Theorem C12_alias_differs_from_module : forall p v m, module_alias p v m true <> m.
+Proof. exact alias_differs_from_module. Qed.
+Print Assumptions C12_alias_differs_from_module.
+
 Theorem C12_module_alias_same_initials_refuted :
   exists p1 p2 v m, p1 <> p2 /\ module_alias p1 v m true = module_alias p2 v m true.
 Proof. exact module_alias_same_initials_refuted. Qed.
